@@ -5,6 +5,7 @@ package main
 import (
 	"fmt"
 	"go/token"
+	"go/types"
 	"sort"
 	"strings"
 
@@ -472,4 +473,133 @@ func pa4(c *Ctx, p *Prog, rule string, scope paScope) int {
 		}
 	}
 	return n
+}
+
+// pa5 (WRAP): a bitboard shifted by one file (<<1, >>1, <<7, >>7, <<9, >>9) wraps around the
+// board edge unless the edge file is masked out: the file the pieces leave from on the source,
+// or the file they would arrive on on the result. Constant operands (fixed castling masks) are exempt.
+func pa5(c *Ctx, p *Prog, rule string, scope paScope) int {
+	const aFile, hFile = uint64(0x0101010101010101), uint64(0x8080808080808080)
+	isBB := func(t types.Type) bool {
+		n, ok := types.Unalias(t).(*types.Named)
+		return ok && n.Obj().Name() == "BitBoard"
+	}
+	n := 0
+	for _, fn := range p.OwnFuncs() {
+		if !scope(fn) || strings.Contains(fn.Synthetic, "wrapper") {
+			continue
+		}
+		ord := 0
+		allInstrs(fn, func(in ssa.Instruction) {
+			sh, ok := in.(*ssa.BinOp)
+			if !ok || (sh.Op != token.SHL && sh.Op != token.SHR) || !isBB(sh.Type()) {
+				return
+			}
+			k, isc := constOf(sh.Y)
+			if !isc || (k != 1 && k != 7 && k != 9) {
+				return
+			}
+			if _, isConst := stripConv(sh.X).(*ssa.Const); isConst {
+				return
+			}
+			// operands that do not come from the position (constants, package-level tables such as the
+			// castling masks) are fixed sets whose geometry C01.R4 checks; only piece sets can wrap
+			fromPosition := false
+			for v := range backSlice(sh.X, sliceOpts{ThroughLoads: true, ThroughCalls: true}) {
+				switch x := v.(type) {
+				case *ssa.FieldAddr, *ssa.Field, *ssa.Parameter:
+					fromPosition = true
+				case *ssa.Call:
+					if x.Call.StaticCallee() == nil {
+						fromPosition = true
+					}
+				}
+			}
+			if !fromPosition {
+				return
+			}
+			ord++
+			n++
+			// file increases for <<1, <<9, >>7 ; decreases for >>1, >>9, <<7
+			up := (sh.Op == token.SHL && (k == 1 || k == 9)) || (sh.Op == token.SHR && k == 7)
+			srcEdge, dstEdge := aFile, hFile // pieces leaving the a-file downwards arrive on the h-file
+			if up {
+				srcEdge, dstEdge = hFile, aFile
+			}
+			excludes := func(v ssa.Value, edge uint64, asNot bool) bool {
+				kc, ok := stripConv(v).(*ssa.Const)
+				if !ok || kc.Value == nil {
+					return false
+				}
+				u := kc.Uint64()
+				if asNot {
+					return u&edge == edge
+				}
+				return u&edge == 0
+			}
+			masked := false
+			var pos, neg []ssa.Value
+			maskLeaves(sh.X, &pos, &neg)
+			for _, l := range pos {
+				if excludes(l, srcEdge, false) {
+					masked = true
+				}
+			}
+			for _, l := range neg {
+				if excludes(l, srcEdge, true) {
+					masked = true
+				}
+			}
+			rpos, rneg := andContext(sh)
+			for _, l := range rpos {
+				if excludes(l, dstEdge, false) {
+					masked = true
+				}
+			}
+			for _, l := range rneg {
+				if excludes(l, dstEdge, true) {
+					masked = true
+				}
+			}
+			key := fmt.Sprintf("%s#file-shift@%d", fnName(fn), ord)
+			dir := map[bool]string{true: "towards the h-file", false: "towards the a-file"}[up]
+			switch {
+			case masked:
+				c.Ok(rule, key, sh.Pos(), "shift by %d (%s) has the edge file masked out", k, dir)
+			default:
+				// a guard on the file of the operand may make the shift safe: do not call that a violation
+				guarded := false
+				for _, ce := range controllingConds(sh.Block()) {
+					for v := range backSlice(ce.Cond, sliceOpts{ThroughCalls: true}) {
+						if _, ok := fileOf(v); ok {
+							guarded = true
+						}
+					}
+				}
+				if guarded {
+					c.Undec(rule, key, sh.Pos(), "shift by %d (%s) without an edge-file mask, under a condition on a file: cannot decide", k, dir)
+				} else {
+					c.Fail(rule, key, sh.Pos(), "bitboard shifted by %d (%s) without masking the edge file on the source or the result: squares wrap around the board edge onto the opposite file of the neighbouring rank", k, dir)
+				}
+			}
+		})
+	}
+	return n
+}
+
+func init() {
+	addMutants(
+		Mutant{Name: "C02.R7-ep-neighbours-wrap", Prop: "C02", File: "board/attacks.go", Quick: true,
+			Old: "ables := ((target & ^AFileBB >> 1) | (target & ^HFileBB << 1)) & b.Pieces[Pawn] & them", New: "ables := ((target >> 1) | (target << 1)) & b.Pieces[Pawn] & them",
+			Expect: "C02.R7.neighbours/board.(*Board).CanEnPassant#file-shift"},
+		Mutant{Name: "C04.R6-ep-neighbours-wrap", Prop: "C04", File: "board/attacks.go",
+			Old: "ables := ((target & ^AFileBB >> 1) | (target & ^HFileBB << 1)) & b.Pieces[Pawn] & them", New: "ables := ((target >> 1) | (target & ^HFileBB << 1)) & b.Pieces[Pawn] & them",
+			Expect: "C04.R6.ep-capturable.neighbours/board.(*Board).CanEnPassant#file-shift"},
+		Mutant{Name: "C01.R3-pawn-capture-wraps", Prop: "C01", File: "movegen/movegen.go",
+			Old: "func (g generator) pawnCaptureMoves(ms *move.Store, b *board.Board) {\n\tvar (\n\t\tocc1l, occ1r BitBoard\n\t)\n\n\tif b.STM == White {\n\t\tocc1l = (g.them &^ HFileBB) >> 7\n", New: "func (g generator) pawnCaptureMoves(ms *move.Store, b *board.Board) {\n\tvar (\n\t\tocc1l, occ1r BitBoard\n\t)\n\n\tif b.STM == White {\n\t\tocc1l = g.them >> 7\n",
+			Expect: "C01.R3.WRAP/movegen.(generator)."},
+		Mutant{Name: "C12.R6-pawn-capture-pattern-wraps", Prop: "C12", File: "attacks/attacks.go",
+			Old: "((b & ^HFileBB) << 9)", New: "((b & ^AFileBB) << 9)",
+			Expect: "C12.R6.WRAP/attacks.PawnCaptureMoves#file-shift"},
+	)
 }
